@@ -13,7 +13,7 @@ def run(tier, replay=None):
     out, build, problems = K.begin(PROP, tier, CONE, "Props/C16.v")
     is_elab_replay = bool(replay) and "ops" in __import__("json").load(open(replay)).get("case", {})
     if not replay or not is_elab_replay:
-        K.run_into(out, build, problems, PROP, tier, ['spec_C16'], lambda rng, n: G.gen_many(rng, n), 1200, 25000, RULE_C,
+        K.run_into(out, build, problems, PROP, tier, ['spec_C16', 'spec_C16_after'], lambda rng, n: G.gen_many(rng, n), 1200, 25000, RULE_C,
                    replay=replay)
     if not replay or is_elab_replay:
         E.run(out, build, problems, PROP, tier, ['spec_C04', 'spec_C16_order'], E.default_gen, 500, 10000, RULE_E, replay=replay, known={'spec_C04': 'kf_C04_accept_all'})
